@@ -283,7 +283,7 @@ func (r *UnchunkReader) NextServiceInfo() (key string, val io.ReadCloser, ok boo
 // Write.
 type UnchunkWriter struct {
 	readers  chan<- pipeReader
-	readerMu sync.Mutex // to keep closing and sending from happening simultaneously
+	readerMu sync.Mutex // to keep closing and sending from happening simultaneously, also guards w
 	w        pipeWriter
 	pipe     func() (pipeReader, pipeWriter)
 
@@ -296,7 +296,16 @@ func (w *UnchunkWriter) NextServiceInfo(moduleName, messageName string) error {
 	if err := w.nextPipe(false); err != nil {
 		return err
 	}
-	return cbor.NewEncoder(w.w).Encode(moduleName + ":" + messageName)
+	return cbor.NewEncoder(w.writer()).Encode(moduleName + ":" + messageName)
+}
+
+// writer returns the current pipe writer. Close and CloseWithError may run
+// concurrently with the goroutine producing service info, so the field is only
+// accessed while holding readerMu.
+func (w *UnchunkWriter) writer() pipeWriter {
+	w.readerMu.Lock()
+	defer w.readerMu.Unlock()
+	return w.w
 }
 
 // ForceNewMessage causes the next (*ChunkReader).ReadChunk to return
@@ -312,8 +321,8 @@ func (w *UnchunkWriter) ForceNewMessage() error {
 
 func (w *UnchunkWriter) nextPipe(forceNewMessage bool) error {
 	// Close the writer of any existing pipe
-	if w.w != nil {
-		_ = w.w.Close()
+	if prev := w.writer(); prev != nil {
+		_ = prev.Close()
 	}
 
 	// Create a new pipe
@@ -337,6 +346,9 @@ func (w *UnchunkWriter) nextPipe(forceNewMessage bool) error {
 		w.readerMu.Unlock()
 		return io.ErrClosedPipe
 	case w.readers <- pr:
+		// Store the writer before releasing the lock so that a concurrent
+		// Close always closes the writer of the reader that was just sent
+		w.w = pw
 		w.readerMu.Unlock()
 	}
 
@@ -347,14 +359,13 @@ func (w *UnchunkWriter) nextPipe(forceNewMessage bool) error {
 		_ = pw.Close()
 	}
 
-	w.w = pw
 	return nil
 }
 
 // Write may be called any number of times to write the contents of a
 // ServiceInfo value, but it must be preceded by a call to Next and must be
 // succeeded by a call to either Next or Close.
-func (w *UnchunkWriter) Write(p []byte) (n int, err error) { return w.w.Write(p) }
+func (w *UnchunkWriter) Write(p []byte) (n int, err error) { return w.writer().Write(p) }
 
 // Close is called when all ServiceInfos have been written and no further calls
 // to Next or Write will be made.
@@ -374,22 +385,22 @@ func (w *UnchunkWriter) Close() error {
 		w.closeMu.Unlock()
 	}
 
+	// Lock the readers channel before closing in case a ChunkReader is waiting
+	// on one and hasn't exited the select due to the closing channel being
+	// closed
+	w.readerMu.Lock()
 	// Ensure a writer exists so that it can be closed and any further calls to
 	// write fail without a panic
 	if w.w == nil {
 		_, w.w = io.Pipe()
 	}
-
-	// Lock the readers channel before closing in case a ChunkReader is waiting
-	// on one and hasn't exited the select due to the closing channel being
-	// closed
-	w.readerMu.Lock()
+	last := w.w
 	close(w.readers)
 	w.readerMu.Unlock()
 
 	// Close the writer so that all calls to Write error and ChunkReader
 	// receives EOF
-	return w.w.Close()
+	return last.Close()
 }
 
 // CloseWithError causes reads from the associated ChunkReader to error with
@@ -410,6 +421,10 @@ func (w *UnchunkWriter) CloseWithError(err error) error {
 		w.closeMu.Unlock()
 	}
 
+	// Lock the readers channel before closing in case a ChunkReader is waiting
+	// on one and hasn't exited the select due to the closing channel being
+	// closed
+	w.readerMu.Lock()
 	// Create a new pipe and ensure that it is sent to the corresponding
 	// ChunkReader so that the error of CloseWithError is receivable
 	if w.w == nil {
@@ -419,17 +434,13 @@ func (w *UnchunkWriter) CloseWithError(err error) error {
 		w.readers <- pr
 		w.w = pw
 	}
-
-	// Lock the readers channel before closing in case a ChunkReader is waiting
-	// on one and hasn't exited the select due to the closing channel being
-	// closed
-	w.readerMu.Lock()
+	last := w.w
 	close(w.readers)
 	w.readerMu.Unlock()
 
 	// Close the writer so that all calls to Write error and ChunkReader
 	// receives err
-	return w.w.CloseWithError(err)
+	return last.CloseWithError(err)
 }
 
 // NewChunkInPipe creates a ChunkWriter and UnchunkReader pair. All chunks sent
